@@ -103,6 +103,21 @@ def main(ck, tier, w):
         if probs:
             ck.violation('%s: %s' % (j[1], '; '.join(probs)), {'coin': j[1], 'range': rg, 'scripts': [[x.hex()[:300] for x in b] for b in spks],
                                                                'observed': r.brief(), 'tags': []})
+    # payloads with control characters (valid UTF-8), and what standard output is connected to - pipe, regular file, terminal -
+    # changes nothing: "exactly the pushed payload"
+    ctl = [b'tab\there', b'esc \x1b[31mred\x1b[0m', b'bell\x07', b'nul\x00byte', b'del\x7f', 'nel\u0085x'.encode(), b'cr\rlf', b'\x08\x08bs', b'\x0b\x0c']
+    for coin in ('bitcoin', 'dogecoin', 'testnet3'):
+        blocks = chains.std_chain(3, coin, txs_fn=lambda h, c: [btc.coinbase(h, None, outs=[{'val': 1, 'spk': b'\x6a' + btc.push(p)} for p in ctl[h::3]])])
+        d = datadir.simple_dir(w.sub('dd'), blocks, coin).write()
+        exp = b''.join(ref.opreturn_expected(list(enumerate(blocks)), coin))
+        for mode in ('pipe', 'pty'):
+            r = run.run_parser(d, 'opreturn', coin=coin, pty=(mode == 'pty'))
+            ck.evals()
+            ck.distinct(('ctl', coin, mode))
+            if r.rc != 0 or chains.strip_log(r.out) != exp:
+                ck.violation('%s, standard output on a %s: lines for payloads with control characters differ from the payloads (exit %d): got %r' %
+                             (coin, mode, r.rc, chains.strip_log(r.out)[:300]), {'coin': coin, 'stdout': mode, 'payloads_hex': [p.hex() for p in ctl],
+                                                                               'observed': r.brief(), 'tags': []})
     # lines of the blocks processed before a failure are printed too (every processed output prints its line)
     for coin in ('bitcoin', 'litecoin'):
         blocks = chains.std_chain(6, coin)
